@@ -111,6 +111,24 @@ func (a *apiServer) touchMetadata(name string) {
 	a.emit(watch.Modified, cur)
 }
 
+// foreignStatus: the status subresource is writable by anybody with the rights (another controller, kubectl); the CRD
+// only says activeIn is a string of at most 7 characters
+func (a *apiServer) foreignStatus(name, activeIn string) {
+	a.mu.Lock()
+	defer a.mu.Unlock()
+	cur, ok := a.objects[name]
+	if !ok {
+		return
+	}
+	a.rv++
+	cur = cur.DeepCopy()
+	cur.Status.ActiveIn = activeIn
+	cur.ResourceVersion = fmt.Sprint(a.rv)
+	a.objects[name] = cur
+	a.stats["fault:status-written-by-another-party"]++
+	a.emit(watch.Modified, cur)
+}
+
 func (a *apiServer) del(name string) {
 	a.mu.Lock()
 	defer a.mu.Unlock()
@@ -247,7 +265,11 @@ func k8sProvSim(r *simcore.Run) {
 	const myClass = "sim-class"
 	mutate := func(what string) {
 		n := simcore.Pick(s, names, "object")
-		switch k := s.Draw(8, "k8s-op"); {
+		switch k := s.Draw(9, "k8s-op"); {
+		case k == 8:
+			v := simcore.Pick(s, []string{"1", "unknown", "-", "2 of 3", "/", "1/"}, "foreign-active-in")
+			api.foreignStatus(n, v)
+			r.Logf("%s: status.activeIn of %s set to %q by another party", what, n, v)
 		case k <= 2:
 			versions[n]++
 			if _, ok := classOf[n]; !ok {
